@@ -24,16 +24,27 @@ INLINE_ONLY = {"_orderby_field"}
 POS_ATOMS = ["ctx.with_alias", "ctx.subquery", "ctx.subcriterion", "ctx.with_namespace"]
 
 
+def _glob(text, pat) -> bool:
+    """only `*` is a wildcard (slot paths contain `[*]`, which fnmatch would read as a character class)"""
+    import re as _re
+    if pat == text or pat == "*":
+        return True
+    mark = "\x00"
+    parts = pat.replace("[*]", mark).split("*")
+    rx = ".*".join(_re.escape(x.replace(mark, "[*]")) for x in parts)
+    return _re.fullmatch(rx, text) is not None
+
+
 def site_rule(fi, ci, func_short, rk):
     """required flags at a nested render site, or None when the position is unspecified"""
     r = repo()
     fname = func_short.split(".")[-1]
     term, sel = r.cls("terms.Term"), r.cls("queries.Selectable")
     for f, pat, flags in P.JOIN_SITES:
-        if func_short == f and fnmatch.fnmatchcase(rk, pat):
+        if func_short == f and _glob(rk, pat):
             return flags
     for f, pat, flags in P.BUILDER_SITES + P.BODY_SITES:
-        if fname == f and fnmatch.fnmatchcase(rk, pat):
+        if fname == f and _glob(rk, pat):
             return flags
     if fname in P.UNSPECIFIED_FUNCS:
         return None
